@@ -1,8 +1,9 @@
 /-
   Sipsp.Proofs.HnoExact — EXPORT C05: (1) WHICH stored header line each stored Contact / P-Asserted-Identity value belongs
   to (exactly, by cumulative counts; `HNo` = number of header lines of the type); (2) `cseq_number_before_method`: the CSeq
-  number ends strictly before the method, both non-empty.  Everything is about the model, for EVERY input within the
-  65,535-byte limit (no grammar assumption), any capacities, and every chunk schedule from Init.
+  number ends strictly before the method, both non-empty; (3) the last byte of a name-addr value `V` / parameter span is
+  not white space, except in one described shape.  Everything is about the model, for EVERY input within the 65,535-byte
+  limit (no grammar assumption), any capacities, and every chunk schedule from Init.
 
   (0) `hx_parseHdrLine_split` (no hypothesis on the buffer or the values object): ParseHdrLine, started on a header object
       that has not reached the colon (in particular a new one), either leaves the values object alone — and after OK the
@@ -10,7 +11,8 @@
       that of ONE call of `parseBody` on a header in the "body start" state with the values object the line started with.
       `hx_parseBody_frame`: what that call leaves alone (type of the header; the Contact list unless the type is Contact;
       the identity list unless the type is P-Asserted-Identity; the CSeq object unless the type is CSeq and the object is
-      not yet parsed — then it is one call of ParseCSeqVal).
+      not yet parsed — then it is one call of ParseCSeqVal; the From / To objects unless not yet parsed — then it is one
+      call of ParseNameAddrPVal).
   (1) * counters: `hx_contactsLoop_cnt`, `hx_contact_line_cnt` (`hx_paisLoop_cnt`, `hx_pai_line_cnt`): the value-list loop
         never touches `HNo`, and after OK at least one value was counted; `hx_line_cnt` (`HxCnt`): an accepted header line
         of the list's type raises `HNo` by exactly one and `N` by at least one; a line of any other type changes neither.
@@ -42,13 +44,18 @@
       parameter value, `<a>;tag= ,<b>`).  `hx_value_last_byte_ok`: never after OK.  `hx_params_last_byte`: the same for the
       parameter span (it ends where `V` ends).  Loop invariant `HxTrI` over the 33-state automaton (`hx_tr_cont`,
       `hx_tr_done`), with `hx_skipLWS_ok_run` (every byte skipped by skipLWS is white space).
+      (3b) lifted to the message: `HxValProp` / `HxValProp2` (a property of every value ParseNameAddrPVal completes from a new
+      object), `hx_contactsLoop_all`, `hx_contact_line_all` (`hx_paisLoop_all`, `hx_pai_line_all`), `HxVals`,
+      `hx_parseBody_vals`, `hx_line_vals`, `hx_parseHeaders_vals`, `hx_parseSIPMsg_vals`, `hx_msg_vals_init` — generic: ANY such
+      property holds of From, To and every stored Contact / identity value after a successful ParseSIPMsg — and the
+      instance `hx_msg_trim_init`, `hx_msg_trim_schedule_init`: From / To never end with white space; every stored
+      Contact / identity value does not end with white space except in the one shape above.
   Non-vacuity / tests (`hxTest_msg` and the `decide +kernel` examples: labelled tests, not the general claims).
   NOT proved here: that the counts `cnt` are unique (they are, because the header values do not overlap — `HlsLo` — and the
   stored values are not empty, but this is not derived); that the `val` of a Contact header starts with its first value and
   ends with its last one (only containment); (1) for objects suspended in the middle of a header line other than through
-  the one-shot equivalence (growing prefixes within the size limit); (3) at message level (for From / To and every stored
-  Contact / identity value after ParseSIPMsg): only the ParseNameAddrPVal statement is proved; leading white space /
-  white space inside the spans other than at the end.
+  the one-shot equivalence (growing prefixes within the size limit); for (3): nothing about leading white space or white
+  space inside the spans other than at their end; the `first` / `last` overflow slots of the contact list.
 -/
 import Sipsp.Proofs.PaiLines
 
@@ -289,53 +296,64 @@ theorem hx_pai_line_cnt (b : Buf) (o : Nat) (c : PPAIs) (k : Nat) {o' : Nat} {c'
 /-! ### (1b) the value dispatch: what it leaves alone -/
 
 /-- **frame of the value dispatch** for a header in the "body start" state: the type of the header is kept; the Contact
-    list is touched only for a Contact header, the identity list only for a P-Asserted-Identity header, and the CSeq
-    object only for a CSeq header when it is not yet parsed — then by ONE call of ParseCSeqVal at that position -/
+    list is touched only for a Contact header, the identity list only for a P-Asserted-Identity header, the CSeq
+    object only for a CSeq header when it is not yet parsed — then by ONE call of ParseCSeqVal at that position —, the
+    From / To objects only when not yet parsed — then by ONE call of ParseNameAddrPVal -/
 theorem hx_parseBody_frame (b : Buf) (o : Nat) (h : Hdr) (hv : PHdrVals) (hst : h.state = .bodyStart)
     {n : Nat} {e : Err} {h2 : Hdr} {hv2 : PHdrVals} (hr : parseBody b o h (some hv) = (n, e, h2, some hv2)) :
     h2.type = h.type ∧ (h.type ≠ HdrContact → hv2.contacts = hv.contacts) ∧ (h.type ≠ HdrPAI → hv2.pais = hv.pais) ∧
     (hv2.cseq = hv.cseq ∨
-      (h.type = HdrCSeq ∧ hv.cseq.parsed = false ∧ parseCSeqVal b o hv.cseq = (n, e, hv2.cseq))) := by
+      (h.type = HdrCSeq ∧ hv.cseq.parsed = false ∧ parseCSeqVal b o hv.cseq = (n, e, hv2.cseq))) ∧
+    (hv2.from_ = hv.from_ ∨ (hv.from_.parsed = false ∧ parseNameAddrPVal HdrFrom b o hv.from_ = (n, e, hv2.from_))) ∧
+    (hv2.to = hv.to ∨ (hv.to.parsed = false ∧ parseNameAddrPVal HdrTo b o hv.to = (n, e, hv2.to))) := by
   by_cases htc : h.type = HdrContact
   · have hs : h.state ≠ .hContact := by rw [hst]; decide
     rw [svc_parseBody_contact b o h hv htc hs] at hr
     simp only [Prod.mk.injEq, Option.some.injEq] at hr
     obtain ⟨_, _, rfl, rfl⟩ := hr
-    exact ⟨rfl, fun hh => absurd htc hh, fun _ => rfl, Or.inl rfl⟩
+    exact ⟨rfl, fun hh => absurd htc hh, fun _ => rfl, Or.inl rfl, Or.inl rfl, Or.inl rfl⟩
   by_cases htp : h.type = HdrPAI
   · have hs : h.state ≠ .hPAI := by rw [hst]; decide
     rw [svc_parseBody_pai b o h hv htp hs] at hr
     simp only [Prod.mk.injEq, Option.some.injEq] at hr
     obtain ⟨_, _, rfl, rfl⟩ := hr
-    exact ⟨rfl, fun _ => rfl, fun hh => absurd htp hh, Or.inl rfl⟩
+    exact ⟨rfl, fun _ => rfl, fun hh => absurd htp hh, Or.inl rfl, Or.inl rfl, Or.inl rfl⟩
   have h_contacts : (h.type == HdrContact) = false := by simpa using htc
   have h_pais : (h.type == HdrPAI) = false := by simpa using htp
   have hskip : ∀ {n : Nat} {e : Err} {h2 : Hdr} {hv2 : PHdrVals},
       (o, Err.ok, h, some hv) = (n, e, h2, some hv2) →
       h2.type = h.type ∧ (h.type ≠ HdrContact → hv2.contacts = hv.contacts) ∧ (h.type ≠ HdrPAI → hv2.pais = hv.pais) ∧
       (hv2.cseq = hv.cseq ∨
-        (h.type = HdrCSeq ∧ hv.cseq.parsed = false ∧ parseCSeqVal b o hv.cseq = (n, e, hv2.cseq))) := by
+        (h.type = HdrCSeq ∧ hv.cseq.parsed = false ∧ parseCSeqVal b o hv.cseq = (n, e, hv2.cseq))) ∧
+      (hv2.from_ = hv.from_ ∨ (hv.from_.parsed = false ∧ parseNameAddrPVal HdrFrom b o hv.from_ = (n, e, hv2.from_))) ∧
+      (hv2.to = hv.to ∨ (hv.to.parsed = false ∧ parseNameAddrPVal HdrTo b o hv.to = (n, e, hv2.to))) := by
     intro n e h2 hv2 hh
     simp only [Prod.mk.injEq, Option.some.injEq] at hh
     obtain ⟨rfl, rfl, rfl, rfl⟩ := hh
-    exact ⟨rfl, fun _ => rfl, fun _ => rfl, Or.inl rfl⟩
+    exact ⟨rfl, fun _ => rfl, fun _ => rfl, Or.inl rfl, Or.inl rfl, Or.inl rfl⟩
   unfold parseBody at hr
   simp only at hr
   by_cases h_from_ : (h.type == HdrFrom) = true
   · simp only [h_from_, ↓reduceIte] at hr
     by_cases hp : (!hv.from_.parsed) = true
-    · simp only [hp, ↓reduceIte, Prod.mk.injEq, Option.some.injEq] at hr
-      obtain ⟨_, _, rfl, rfl⟩ := hr
-      exact ⟨rfl, fun _ => rfl, fun _ => rfl, Or.inl rfl⟩
+    · simp only [hp, ↓reduceIte] at hr
+      rcases hq : parseFromVal b o hv.from_ with ⟨n1, e1, f⟩
+      rw [hq] at hr
+      simp only [Prod.mk.injEq, Option.some.injEq] at hr
+      obtain ⟨rfl, rfl, rfl, rfl⟩ := hr
+      exact ⟨rfl, fun _ => rfl, fun _ => rfl, Or.inl rfl, Or.inr ⟨by simpa using hp, hq⟩, Or.inl rfl⟩
     · simp only [hp, Bool.false_eq_true, ↓reduceIte] at hr
       exact hskip hr
   simp only [h_from_, Bool.false_eq_true, ↓reduceIte] at hr
   by_cases h_to : (h.type == HdrTo) = true
   · simp only [h_to, ↓reduceIte] at hr
     by_cases hp : (!hv.to.parsed) = true
-    · simp only [hp, ↓reduceIte, Prod.mk.injEq, Option.some.injEq] at hr
-      obtain ⟨_, _, rfl, rfl⟩ := hr
-      exact ⟨rfl, fun _ => rfl, fun _ => rfl, Or.inl rfl⟩
+    · simp only [hp, ↓reduceIte] at hr
+      rcases hq : parseNameAddrPVal HdrTo b o hv.to with ⟨n1, e1, f⟩
+      rw [hq] at hr
+      simp only [Prod.mk.injEq, Option.some.injEq] at hr
+      obtain ⟨rfl, rfl, rfl, rfl⟩ := hr
+      exact ⟨rfl, fun _ => rfl, fun _ => rfl, Or.inl rfl, Or.inl rfl, Or.inr ⟨by simpa using hp, rfl⟩⟩
     · simp only [hp, Bool.false_eq_true, ↓reduceIte] at hr
       exact hskip hr
   simp only [h_to, Bool.false_eq_true, ↓reduceIte] at hr
@@ -344,7 +362,7 @@ theorem hx_parseBody_frame (b : Buf) (o : Nat) (h : Hdr) (hv : PHdrVals) (hst : 
     by_cases hp : (!hv.callid.parsed) = true
     · simp only [hp, ↓reduceIte, Prod.mk.injEq, Option.some.injEq] at hr
       obtain ⟨_, _, rfl, rfl⟩ := hr
-      exact ⟨rfl, fun _ => rfl, fun _ => rfl, Or.inl rfl⟩
+      exact ⟨rfl, fun _ => rfl, fun _ => rfl, Or.inl rfl, Or.inl rfl, Or.inl rfl⟩
     · simp only [hp, Bool.false_eq_true, ↓reduceIte] at hr
       exact hskip hr
   simp only [h_callid, Bool.false_eq_true, ↓reduceIte] at hr
@@ -356,7 +374,7 @@ theorem hx_parseBody_frame (b : Buf) (o : Nat) (h : Hdr) (hv : PHdrVals) (hst : 
       rw [hq] at hr
       simp only [Prod.mk.injEq, Option.some.injEq] at hr
       obtain ⟨rfl, rfl, rfl, rfl⟩ := hr
-      refine ⟨rfl, fun _ => rfl, fun _ => rfl, Or.inr ⟨by simpa using h_cseq, by simpa using hp, rfl⟩⟩
+      refine ⟨rfl, fun _ => rfl, fun _ => rfl, Or.inr ⟨by simpa using h_cseq, by simpa using hp, rfl⟩, Or.inl rfl, Or.inl rfl⟩
     · simp only [hp, Bool.false_eq_true, ↓reduceIte] at hr
       exact hskip hr
   simp only [h_cseq, Bool.false_eq_true, ↓reduceIte] at hr
@@ -365,7 +383,7 @@ theorem hx_parseBody_frame (b : Buf) (o : Nat) (h : Hdr) (hv : PHdrVals) (hst : 
     by_cases hp : (!hv.clen.parsed) = true
     · simp only [hp, ↓reduceIte, Prod.mk.injEq, Option.some.injEq] at hr
       obtain ⟨_, _, rfl, rfl⟩ := hr
-      exact ⟨rfl, fun _ => rfl, fun _ => rfl, Or.inl rfl⟩
+      exact ⟨rfl, fun _ => rfl, fun _ => rfl, Or.inl rfl, Or.inl rfl, Or.inl rfl⟩
     · simp only [hp, Bool.false_eq_true, ↓reduceIte] at hr
       exact hskip hr
   simp only [h_clen, h_contacts, Bool.false_eq_true, ↓reduceIte] at hr
@@ -374,7 +392,7 @@ theorem hx_parseBody_frame (b : Buf) (o : Nat) (h : Hdr) (hv : PHdrVals) (hst : 
     by_cases hp : (!hv.expires.parsed) = true
     · simp only [hp, ↓reduceIte, Prod.mk.injEq, Option.some.injEq] at hr
       obtain ⟨_, _, rfl, rfl⟩ := hr
-      exact ⟨rfl, fun _ => rfl, fun _ => rfl, Or.inl rfl⟩
+      exact ⟨rfl, fun _ => rfl, fun _ => rfl, Or.inl rfl, Or.inl rfl, Or.inl rfl⟩
     · simp only [hp, Bool.false_eq_true, ↓reduceIte] at hr
       exact hskip hr
   simp only [h_expires, h_pais, Bool.false_eq_true, ↓reduceIte] at hr
@@ -399,7 +417,7 @@ theorem hx_parseBody_cnt (b : Buf) (o : Nat) (h : Hdr) (hv : PHdrVals) (hst : h.
     {n : Nat} {h2 : Hdr} {hv2 : PHdrVals} (hr : parseBody b o h (some hv) = (n, .ok, h2, some hv2)) :
     HxCnt HdrContact hv.contacts.n hv.contacts.hNo hv2.contacts.n hv2.contacts.hNo h.type ∧
     HxCnt HdrPAI hv.pais.n hv.pais.hNo hv2.pais.n hv2.pais.hNo h.type := by
-  obtain ⟨_, f1, f2, _⟩ := hx_parseBody_frame b o h hv hst hr
+  obtain ⟨_, f1, f2, _, _, _⟩ := hx_parseBody_frame b o h hv hst hr
   refine ⟨⟨fun htc => ?_, fun hne => by rw [f1 hne]; exact ⟨rfl, rfl⟩⟩, ⟨fun htp => ?_, fun hne => by rw [f2 hne]; exact ⟨rfl, rfl⟩⟩⟩
   · rw [svc_parseBody_contact b o h hv htc (by rw [hst]; decide)] at hr
     rcases hq : parseAllContactValues b o { hv.contacts with hNo := hv.contacts.hNo + 1, lastHVal := {} } with ⟨n1, e1, c1⟩
@@ -775,7 +793,7 @@ theorem hx_line_cseq (b : Buf) (o : Nat) (h : Hdr) (hv : PHdrVals) (hfit : b.siz
   rcases hcase with ⟨rfl, _⟩ | ⟨i, h1, h2, _, hs1, hp, _, hne, _⟩
   · exact K
   · rcases he with rfl | rfl
-    · rcases (hx_parseBody_frame b i h1 hv hs1 hp).2.2.2 with hq | ⟨_, hnp, hq⟩
+    · rcases (hx_parseBody_frame b i h1 hv hs1 hp).2.2.2.1 with hq | ⟨_, hnp, hq⟩
       · rw [hq]; exact K
       · have hini : hv.cseq.state = .init := by
           rcases K with K | K
@@ -2104,6 +2122,380 @@ example :
     (let r := parseNameAddrPVal HdrContact "<a>;p ,<b>\r\n\r\n".toUTF8.data 0 {}; (r.2.1, r.2.2.v)) = (.moreValues, ⟨0, 5⟩) ∧
     (let r := parseNameAddrPVal HdrContact "<a> ,<b>\r\n\r\n".toUTF8.data 0 {}; (r.2.1, r.2.2.v)) = (.moreValues, ⟨0, 3⟩) ∧
     (let r := parseNameAddrPVal HdrContact "<a>;tag= \r\n\r\n".toUTF8.data 0 {}; (r.2.1, r.2.2.v)) = (.ok, ⟨0, 8⟩) := by
+  decide +kernel
+
+/-! ### (3b) a property of every completed name-addr value, lifted to the stored values of a message -/
+
+/-- the values of a Contact list stored from index `n0` on satisfy `Φ` -/
+def HxAllCt (Φ : PFromBody → Prop) (c : PContacts) (n0 : Nat) : Prop :=
+  ∀ i, n0 ≤ i → i < c.n → i < c.vals.size → Φ c.vals[i]!
+
+def HxAllPa (Φ : PFromBody → Prop) (c : PPAIs) (n0 : Nat) : Prop :=
+  ∀ i, n0 ≤ i → i < c.n → i < c.vals.size → Φ c.vals[i]!
+
+/-- `Φ` holds of every value that ParseNameAddrPVal, started on a new object, completes in buffer `b` -/
+def HxValProp (b : Buf) (Φ : PFromBody → Prop) : Prop :=
+  ∀ h o next e pf, parseNameAddrPVal h b o {} = (next, e, pf) → Err.complete e → Φ pf
+
+theorem hx_contactsLoop_all {Φ : PFromBody → Prop} (b : Buf) (offs : Nat) (c : PContacts) (hΦ : HxValProp b Φ)
+    (hcl : CtClean c) (hcur : c.cur = {}) (n0 : Nat) (h : HxAllCt Φ c n0) :
+    (contactsLoop b offs c).2.1 = .ok → HxAllCt Φ (contactsLoop b offs c).2.2 n0 := by
+  induction hk : b.size - offs using Nat.strongRecOn generalizing offs c with
+  | _ k ih =>
+    rw [contactsLoop]
+    rcases hp : parseOneContact b offs c.cur with ⟨next, e1, pf⟩
+    have hp' : parseNameAddrPVal HdrContact b offs {} = (next, e1, pf) := by rw [hcur] at hp; exact hp
+    have hacc : Err.complete e1 → HxAllCt Φ ((c.setCur pf).account pf) n0 := by
+      intro hc i hn hi hs
+      rw [account_n, setCur_n] at hi
+      rw [account_vals, setCur_size] at hs
+      rw [account_vals]
+      by_cases hin : i = c.n
+      · subst hin
+        rw [setCur_get_n c pf hs]
+        exact hΦ HdrContact offs next e1 pf hp' hc
+      · rw [setCur_vals_ne c pf i (by omega)]
+        exact h i hn (by omega) hs
+    cases e1 <;> simp only
+    case ok => exact fun _ => hacc (Or.inl rfl)
+    case moreValues =>
+      have hnx : (if c.n < c.vals.size then (c.setCur pf).account pf
+          else { (c.setCur pf).account pf with last := {} }) = c.next pf := rfl
+      rw [hnx]
+      have hcl' := next_clean c pf hcl
+      have hL : HxAllCt Φ (c.next pf) n0 := by
+        have := hacc (Or.inr rfl)
+        unfold PContacts.next; split
+        · exact this
+        · exact this
+      by_cases hg : offs < next ∧ next ≤ b.size
+      · rw [if_pos hg]
+        exact ih (b.size - next) (by omega) next (c.next pf) hcl'.1 hcl'.2 hL rfl
+      · rw [if_neg hg]; exact fun hh => by cases hh
+    all_goals exact fun hh => by cases hh
+
+theorem hx_contact_line_all {Φ : PFromBody → Prop} (b : Buf) (o : Nat) (c : PContacts) (k : Nat) (hΦ : HxValProp b Φ)
+    (hcl : CtClean c.wrap) (hcur : c.wrap.cur = {}) {o' : Nat} {c' : PContacts}
+    (hr : parseAllContactValues b o { c with hNo := k, lastHVal := {} } = (o', .ok, c')) :
+    ∀ i, c.n ≤ i → i < c'.n → i < c'.vals.size → Φ c'.vals[i]! := by
+  rw [parseAllContactValues_eq_wrap, bump_wrap] at hr
+  have h0 : HxAllCt Φ ({ c.wrap with hNo := k, lastHVal := {} } : PContacts) c.n :=
+    fun i hn hi _ => by
+      have hi' : i < c.wrap.n := hi
+      rw [(wrap_scalars c).1] at hi'; omega
+  have := hx_contactsLoop_all b o { c.wrap with hNo := k, lastHVal := {} } hΦ hcl hcur c.n h0
+  rw [hr] at this
+  exact this rfl
+
+theorem hx_paisLoop_all {Φ : PFromBody → Prop} (b : Buf) (offs : Nat) (c : PPAIs) (hΦ : HxValProp b Φ)
+    (hcl : PaClean c) (hcur : c.cur = {}) (n0 : Nat) (h : HxAllPa Φ c n0) :
+    (paisLoop b offs c).2.1 = .ok → HxAllPa Φ (paisLoop b offs c).2.2 n0 := by
+  induction hk : b.size - offs using Nat.strongRecOn generalizing offs c with
+  | _ k ih =>
+    rw [paisLoop]
+    rcases hp : parseOnePAI b offs c.cur with ⟨next, e1, pf⟩
+    obtain ⟨e0, hp0, hok0, hmv0, _⟩ := parseOnePAI_under b offs c.cur hp
+    have hp' : parseNameAddrPVal HdrPAI b offs {} = (next, e0, pf) := by rw [hcur] at hp0; exact hp0
+    have hacc : Err.complete e0 → HxAllPa Φ ((c.setCur pf).account pf) n0 := by
+      intro hc i hn hi hs
+      rw [paAccount_n, paSetCur_n] at hi
+      rw [paAccount_vals, paSetCur_size] at hs
+      rw [paAccount_vals]
+      by_cases hin : i = c.n
+      · subst hin
+        rw [paSetCur_get_n c pf hs]
+        exact hΦ HdrPAI offs next e0 pf hp' hc
+      · rw [paSetCur_vals_ne c pf i (by omega)]
+        exact h i hn (by omega) hs
+    cases e1 <;> simp only
+    case ok => exact fun _ => hacc (Or.inl (hok0 rfl))
+    case moreValues =>
+      have hnx : (if c.n < c.vals.size then (c.setCur pf).account pf
+          else { (c.setCur pf).account pf with last := {} }) = c.next pf := rfl
+      rw [hnx]
+      have hcl' := paNext_clean c pf hcl
+      have hL : HxAllPa Φ (c.next pf) n0 := by
+        have := hacc (Or.inr (hmv0 rfl))
+        unfold PPAIs.next; split
+        · exact this
+        · exact this
+      by_cases hg : offs < next ∧ next ≤ b.size
+      · rw [if_pos hg]
+        exact ih (b.size - next) (by omega) next (c.next pf) hcl'.1 hcl'.2 hL rfl
+      · rw [if_neg hg]; exact fun hh => by cases hh
+    all_goals exact fun hh => by cases hh
+
+theorem hx_pai_line_all {Φ : PFromBody → Prop} (b : Buf) (o : Nat) (c : PPAIs) (k : Nat) (hΦ : HxValProp b Φ)
+    (hcl : PaClean c.wrap) (hcur : c.wrap.cur = {}) {o' : Nat} {c' : PPAIs}
+    (hr : parseAllPAIValues b o { c with hNo := k, lastHVal := {} } = (o', .ok, c')) :
+    ∀ i, c.n ≤ i → i < c'.n → i < c'.vals.size → Φ c'.vals[i]! := by
+  rw [parseAllPAIValues_eq_wrap, paBump_wrap] at hr
+  have h0 : HxAllPa Φ ({ c.wrap with hNo := k, lastHVal := {} } : PPAIs) c.n :=
+    fun i hn hi _ => by
+      have hi' : i < c.wrap.n := hi
+      rw [(paWrap_scalars c).1] at hi'; omega
+  have := hx_paisLoop_all b o { c.wrap with hNo := k, lastHVal := {} } hΦ hcl hcur c.n h0
+  rw [hr] at this
+  exact this rfl
+
+/-- a single-valued name-addr object (From, To) between two header lines: new, or parsed with `Φ` -/
+def HxNaK (Φ : PFromBody → Prop) (pf : PFromBody) : Prop := pf = {} ∨ (pf.parsed = true ∧ Φ pf)
+
+/-- `Ψ e pf` holds of every value `pf` that ParseNameAddrPVal, started on a new object, completes in buffer `b` with
+    verdict `e` (OK or "more values") -/
+def HxValProp2 (b : Buf) (Ψ : Err → PFromBody → Prop) : Prop :=
+  ∀ h o next e pf, parseNameAddrPVal h b o {} = (next, e, pf) → Err.complete e → Ψ e pf
+
+/-- `Ψ` with one of the two verdicts -/
+def HxAny (Ψ : Err → PFromBody → Prop) (pf : PFromBody) : Prop := Ψ .ok pf ∨ Ψ .moreValues pf
+
+theorem HxValProp2.any {b : Buf} {Ψ : Err → PFromBody → Prop} (h : HxValProp2 b Ψ) : HxValProp b (HxAny Ψ) := by
+  intro k o next e pf hp hc
+  have := h k o next e pf hp hc
+  rcases hc with rfl | rfl
+  · exact Or.inl this
+  · exact Or.inr this
+
+/-- the values object between two header lines: `Ψ .ok` for From and To (if parsed), `Ψ` with one of the two verdicts
+    for every stored Contact / identity value -/
+structure HxVals (Ψ : Err → PFromBody → Prop) (hv : PHdrVals) : Prop where
+  from_ : HxNaK (Ψ .ok) hv.from_
+  to : HxNaK (Ψ .ok) hv.to
+  ct : HxAllCt (HxAny Ψ) hv.contacts 0
+  pa : HxAllPa (HxAny Ψ) hv.pais 0
+
+theorem hx_naK_step {Ψ : Err → PFromBody → Prop} {b : Buf} (hΨ : HxValProp2 b Ψ) (h o n : Nat) (pf pf2 : PFromBody)
+    (K : HxNaK (Ψ .ok) pf) (hc : pf2 = pf ∨ (pf.parsed = false ∧ parseNameAddrPVal h b o pf = (n, .ok, pf2))) : HxNaK (Ψ .ok) pf2 := by
+  rcases hc with rfl | ⟨hnp, hq⟩
+  · exact K
+  · rcases K with rfl | ⟨hp, _⟩
+    · exact Or.inr ⟨sv_na_ok h b o {} hq, hΨ h o n .ok pf2 hq (Or.inl rfl)⟩
+    · rw [hp] at hnp; cases hnp
+
+/-- the value dispatch on a header in the "body start" state, verdict OK, both value lists idle: `HxVals` is kept -/
+theorem hx_parseBody_vals {Ψ : Err → PFromBody → Prop} (b : Buf) (o : Nat) (h : Hdr) (hv : PHdrVals) (hΨ : HxValProp2 b Ψ)
+    (hst : h.state = .bodyStart) (hct : CtIdle b hv.contacts) (hpa : PaIdle b hv.pais)
+    {n : Nat} {h2 : Hdr} {hv2 : PHdrVals} (hr : parseBody b o h (some hv) = (n, .ok, h2, some hv2))
+    (G : HxVals Ψ hv) : HxVals Ψ hv2 := by
+  obtain ⟨_, f1, f2, _, f4, f5⟩ := hx_parseBody_frame b o h hv hst hr
+  refine ⟨hx_naK_step hΨ HdrFrom o n _ _ G.from_ f4, hx_naK_step hΨ HdrTo o n _ _ G.to f5, ?_, ?_⟩
+  · by_cases htc : h.type = HdrContact
+    · rw [svc_parseBody_contact b o h hv htc (by rw [hst]; decide)] at hr
+      rcases hq : parseAllContactValues b o { hv.contacts with hNo := hv.contacts.hNo + 1, lastHVal := {} } with ⟨n1, e1, c1⟩
+      have hk := pl_contact_line_keep b o hv.contacts (hv.contacts.hNo + 1)
+      rw [hq] at hr hk
+      simp only [Prod.mk.injEq, Option.some.injEq] at hr
+      obtain ⟨rfl, rfl, rfl, rfl⟩ := hr
+      have hnew := hx_contact_line_all b o hv.contacts _ hΨ.any hct.clean hct.cur hq
+      intro i _ hi hs
+      by_cases hin : i < hv.contacts.n
+      · show HxAny Ψ c1.vals[i]!
+        rw [hk.2.2 i hin]
+        exact G.ct i (Nat.zero_le _) hin (by rw [← hk.1]; exact hs)
+      · exact hnew i (by omega) hi hs
+    · rw [f1 htc]; exact G.ct
+  · by_cases htp : h.type = HdrPAI
+    · rw [svc_parseBody_pai b o h hv htp (by rw [hst]; decide)] at hr
+      rcases hq : parseAllPAIValues b o { hv.pais with hNo := hv.pais.hNo + 1, lastHVal := {} } with ⟨n1, e1, c1⟩
+      have hk := pl_pai_line_keep b o hv.pais (hv.pais.hNo + 1)
+      rw [hq] at hr hk
+      simp only [Prod.mk.injEq, Option.some.injEq] at hr
+      obtain ⟨rfl, rfl, rfl, rfl⟩ := hr
+      have hnew := hx_pai_line_all b o hv.pais _ hΨ.any hpa.clean hpa.cur hq
+      intro i _ hi hs
+      by_cases hin : i < hv.pais.n
+      · show HxAny Ψ c1.vals[i]!
+        rw [hk.2.2 i hin]
+        exact G.pa i (Nat.zero_le _) hin (by rw [← hk.1]; exact hs)
+      · exact hnew i (by omega) hi hs
+    · rw [f2 htp]; exact G.pa
+
+/-- **one header line**, verdict OK or "empty line" -/
+theorem hx_line_vals {Ψ : Err → PFromBody → Prop} (b : Buf) (o : Nat) (h : Hdr) (hv : PHdrVals) (hΨ : HxValProp2 b Ψ)
+    (hst : HxPre h.state) (hct : CtIdle b hv.contacts) (hpa : PaIdle b hv.pais)
+    {o' : Nat} {e : Err} {h' : Hdr} {hb' : Option PHdrVals} (hr : parseHdrLine b o h (some hv) = (o', e, h', hb'))
+    (he : e = .ok ∨ e = .empty) : ∃ hv', hb' = some hv' ∧ (HxVals Ψ hv → HxVals Ψ hv') := by
+  obtain ⟨hv', hb, hcase⟩ := hx_parseHdrLine_split b o h hv hst hr
+  simp only at hb hcase
+  subst hb
+  refine ⟨hv', rfl, fun K => ?_⟩
+  rcases hcase with ⟨rfl, _⟩ | ⟨i, h1, h2, _, hs1, hp, _, hne, _⟩
+  · exact K
+  · rcases he with rfl | rfl
+    · exact hx_parseBody_vals b i h1 hv hΨ hs1 hct hpa hp K
+    · exact absurd rfl hne
+
+/-- **header block** (same hypotheses as `hx_parseHeaders`) -/
+theorem hx_parseHeaders_vals {Ψ : Err → PFromBody → Prop} (b : Buf) (offs : Nat) (hl : HdrLst) (hb : Option PHdrVals)
+    (hΨ : HxValProp2 b Ψ) (hfit : b.size ≤ 65535)
+    (hok1 : hlsOK b hl) (hok2 : hbOK b offs hb) (hpe : hlsPend hl hb) (ho : offs ≤ b.size)
+    (H : HlsSafe b offs hl hb) (hcur : hl.cur = {}) (hsome : hb ≠ none) (G : ∀ hv, hb = some hv → HxVals Ψ hv) :
+    (parseHeaders b offs hl hb).2.1 = .ok → ∀ hv, (parseHeaders b offs hl hb).2.2.2 = some hv → HxVals Ψ hv := by
+  induction hk : b.size - offs using Nat.strongRecOn generalizing offs hl hb with
+  | _ k ih =>
+    rw [parseHeaders.eq_1 b offs hl hb]
+    by_cases hlt : offs < b.size
+    · rw [if_pos hlt]
+      have hI : hlOK b offs hl.cur hb := ⟨by omega, hlsOK_cur hok1, hok2⟩
+      cases hb with
+      | none => exact absurd rfl hsome
+      | some hv =>
+      rcases hp1 : parseHdrLine b offs hl.cur (some hv) with ⟨n1, e1, g1, v1⟩
+      obtain ⟨hO, hS, hF, hN, hE⟩ := parseHdrLine_safe b offs hl.cur (some hv) hfit H.cur hI hp1
+      have Hv := H.cur.hv hv rfl
+      rw [hcur] at Hv
+      have hct : CtIdle b hv.contacts := Hv.ctI (fun hq => by cases hq)
+      have hpa : PaIdle b hv.pais := Hv.paI (fun hq => by cases hq)
+      have hK : e1 = .ok ∨ e1 = .empty → ∀ hv2, v1 = some hv2 → HxVals Ψ hv2 := by
+        intro he hv2 hh
+        obtain ⟨hv3, hq3, hk3⟩ := hx_line_vals b offs hl.cur hv hΨ (by rw [hcur]; exact Or.inl rfl) hct hpa hp1 he
+        rw [hq3] at hh; cases hh
+        exact hk3 (G hv rfl)
+      cases e1 <;> simp only
+      case ok =>
+        have hpost := parseHdrLine_post b offs hl.cur (some hv) hI hp1 (Or.inl rfl)
+        have hg : offs < n1 := parseHdrLine_ok_gt b offs hl.cur (some hv) hI hpe.1 hp1
+        rw [if_pos hg]
+        obtain ⟨hv1, hq1, _⟩ := hx_line_vals (Ψ := Ψ) b offs hl.cur hv hΨ (by rw [hcur]; exact Or.inl rfl) hct hpa hp1 (Or.inl rfl)
+        subst hq1
+        exact ih (b.size - n1) (by omega) n1 _ (some hv1) (hlsOK_next g1 hok1) hpost.2
+          (hlsPend_next g1 (some hv1) hpe) hpost.1 (H.next g1 (hS (Or.inl rfl)) (hF rfl) (by omega))
+          (flo_next_cur hl g1 H.clean) (by intro hh; cases hh)
+          (fun hv' hh => hK (Or.inl rfl) hv' hh) rfl
+      case empty =>
+        split
+        · intro _ hv' hh; exact hK (Or.inr rfl) hv' hh
+        · intro hh; cases hh
+      all_goals (intro hh; cases hh)
+    · rw [if_neg hlt]
+      intro hh; cases hh
+
+/-! #### the message -/
+
+theorem hx_parseSIPMsg_vals {Ψ : Err → PFromBody → Prop} (b : Buf) (o : Nat) (m : PSIPMsg) (flags : Nat)
+    (hΨ : HxValProp2 b Ψ) (hfit : b.size ≤ 65535)
+    (hok : msgOK2 b o m) (H : MsgSafe b o m) (hst : m.state = .init) (hcur : m.hl.cur = {})
+    (G : HxVals Ψ m.pv) {o' : Nat} {m' : PSIPMsg} (hr : parseSIPMsg b o m flags = (o', .ok, m')) :
+    HxVals Ψ m'.pv := by
+  obtain ⟨ho, _, hrest⟩ := hok
+  obtain ⟨hls, hvs, hpe⟩ := hrest (by rw [hst]; decide)
+  have h1 : parseSIPMsg b o m flags = msgFLine b o { m with offs := o, state := .fline } flags := by
+    unfold parseSIPMsg; rw [hst]
+  rw [h1] at hr
+  unfold msgFLine at hr
+  simp only at hr
+  have hF := parseFLine_safe b o m.fl hfit (H.flS (Or.inl hst))
+  have hge := parseFLine_ge b o m.fl
+  rcases hp : parseFLine b o m.fl with ⟨o1, e1, fl1⟩
+  rw [hp] at hr hF hge
+  simp only at hF hge
+  cases e1 <;> simp only at hr
+  case ok =>
+    rw [msgHeaders_eq] at hr
+    simp only at hr
+    have hHls : HlsSafe b o1 m.hl (some m.pv) := (H.hls (Or.inl hst)).mono hge hF.ho
+    have hNn := hx_parseHeaders_vals b o1 m.hl (some m.pv) hΨ hfit hls (hvOK_mono hvs hge hF.ho) hpe hF.ho hHls hcur
+      (by intro hh; cases hh) (fun hv hh => by cases hh; exact G)
+    have hsome := parseHeaders_isSome b o1 m.hl m.pv
+    rcases hp2 : parseHeaders b o1 m.hl (some m.pv) with ⟨o2, e2, hl2, hb2⟩
+    rw [hp2] at hr hNn hsome
+    cases hb2 with
+    | none => cases hsome
+    | some pv2 =>
+      unfold afterHeaders at hr
+      cases e2 <;> simp only [Option.getD_some] at hr
+      case ok =>
+        obtain ⟨k1, k2, k3⟩ := flo_msgBody_keeps b o2 { m with offs := o, fl := fl1, hl := hl2, pv := pv2, state := .body } flags
+        rw [hr] at k1 k2 k3
+        rw [k3]; exact hNn rfl pv2 rfl
+      all_goals (exfalso; have hq := congrArg (fun r => r.2.1) hr; simp only at hq; exact flo_msgErr_ne_ok _ _ _ _ (by decide) hq)
+  all_goals (exfalso; have hq := congrArg (fun r => r.2.1) hr; simp only at hq; exact flo_msgErr_ne_ok _ _ _ _ (by decide) hq)
+
+theorem HxVals_init (Ψ : Err → PFromBody → Prop) (m : PSIPMsg) (len kh kc : Nat) (hdrs : Option Unit) (cts : Option Unit) :
+    HxVals Ψ (m.init len (hdrs.map fun _ => Array.replicate kh {}) (cts.map fun _ => Array.replicate kc {})).pv := by
+  have key : ∀ k k', HxVals Ψ (initObj len k k').pv := by
+    intro k k'
+    exact ⟨Or.inl rfl, Or.inl rfl, (fun i _ hi _ => by cases hi), (fun i _ hi _ => by cases hi)⟩
+  cases hdrs <;> cases cts
+  · exact key 10 10
+  · exact key 10 kc
+  · exact key kh 10
+  · exact key kh kc
+
+/-- **any property of completed name-addr values holds of From, To and every stored Contact / identity value** after one
+    successful ParseSIPMsg call on an object produced by Init -/
+theorem hx_msg_vals_init {Ψ : Err → PFromBody → Prop} (b : Buf) (o : Nat) (m0 : PSIPMsg) (len kh kc : Nat)
+    (hdrs cts : Option Unit) (flags : Nat) (hΨ : HxValProp2 b Ψ) (hfit : b.size ≤ 65535) (ho : o ≤ b.size)
+    {o' : Nat} {m' : PSIPMsg}
+    (hr : parseSIPMsg b o (m0.init len (hdrs.map fun _ => Array.replicate kh {}) (cts.map fun _ => Array.replicate kc {}))
+      flags = (o', .ok, m')) : HxVals Ψ m'.pv := by
+  obtain ⟨_, q2, q3⟩ := MsgLo_init o m0 len kh kc hdrs cts
+  exact hx_parseSIPMsg_vals b o _ flags hΨ hfit (msgOK2_init b o ho m0 len kh kc hdrs cts)
+    (MsgSafe_init b o ho m0 len kh kc hdrs cts) q3 q2 (HxVals_init Ψ m0 len kh kc hdrs cts) hr
+
+/-- the trimming statement as a property of completed values -/
+theorem hx_trim_prop (b : Buf) (hfit : b.size ≤ 65535) : HxValProp2 b (fun e pf => HxTrC b e pf.v) :=
+  fun h o _ _ _ hp hc => hx_value_last_byte h b o hfit hp hc
+
+/-- **[C05] trimming, message level, one call on an Init object**: after a successful ParseSIPMsg the From and To
+    values (if parsed) do not end with white space; every stored Contact / identity value does not end with white
+    space, except in the one shape of `HxTrC` (`; ,` / `= ,`) -/
+theorem hx_msg_trim_init (b : Buf) (o : Nat) (m0 : PSIPMsg) (len kh kc : Nat)
+    (hdrs cts : Option Unit) (flags : Nat) (hfit : b.size ≤ 65535) (ho : o ≤ b.size) {o' : Nat} {m' : PSIPMsg}
+    (hr : parseSIPMsg b o (m0.init len (hdrs.map fun _ => Array.replicate kh {}) (cts.map fun _ => Array.replicate kc {}))
+      flags = (o', .ok, m')) :
+    (m'.pv.from_.parsed = true → HxNL b (m'.pv.from_.v.offs + m'.pv.from_.v.len)) ∧
+    (m'.pv.to.parsed = true → HxNL b (m'.pv.to.v.offs + m'.pv.to.v.len)) ∧
+    (∀ k, k < m'.pv.contacts.n → k < m'.pv.contacts.vals.size → HxTrC b .moreValues m'.pv.contacts.vals[k]!.v) ∧
+    (∀ k, k < m'.pv.pais.n → k < m'.pv.pais.vals.size → HxTrC b .moreValues m'.pv.pais.vals[k]!.v) := by
+  have hV := hx_msg_vals_init b o m0 len kh kc hdrs cts flags (hx_trim_prop b hfit) hfit ho hr
+  have okc : ∀ v : PField, HxTrC b .ok v → HxNL b (v.offs + v.len) := by
+    intro v hh
+    rcases hh with q | ⟨q, _⟩
+    · exact q
+    · cases q
+  have anyc : ∀ pf : PFromBody, HxAny (fun e pf => HxTrC b e pf.v) pf → HxTrC b .moreValues pf.v := by
+    intro pf hh
+    rcases hh with q | q
+    · exact Or.inl (okc _ q)
+    · exact q
+  refine ⟨fun hp => ?_, fun hp => ?_, fun k h1 h2 => anyc _ (hV.ct k (Nat.zero_le _) h1 h2),
+    fun k h1 h2 => anyc _ (hV.pa k (Nat.zero_le _) h1 h2)⟩
+  · rcases hV.from_ with q | ⟨_, q⟩
+    · rw [q] at hp; cases hp
+    · exact okc _ q
+  · rcases hV.to with q | ⟨_, q⟩
+    · rw [q] at hp; cases hp
+    · exact okc _ q
+
+/-- … under every chunk schedule, from Init (the buffer is the one of the call that completed the message) -/
+theorem hx_msg_trim_schedule_init (flags : Nat) (o : Nat) (m0 : PSIPMsg) (len kh kc : Nat)
+    (hdrs cts : Option Unit) (l : List Buf) (hg : Growing l) (hfit : ∀ x ∈ l, x.size ≤ 65535) (hne : l ≠ [])
+    (ho : ∀ b ∈ l, o ≤ b.size) {o' : Nat} {m' : PSIPMsg}
+    (hr : resumeRun (C01.msgP flags) o
+      (m0.init len (hdrs.map fun _ => Array.replicate kh {}) (cts.map fun _ => Array.replicate kc {})) l = (o', .ok, m')) :
+    ∃ b ∈ l,
+    (m'.pv.from_.parsed = true → HxNL b (m'.pv.from_.v.offs + m'.pv.from_.v.len)) ∧
+    (m'.pv.to.parsed = true → HxNL b (m'.pv.to.v.offs + m'.pv.to.v.len)) ∧
+    (∀ k, k < m'.pv.contacts.n → k < m'.pv.contacts.vals.size → HxTrC b .moreValues m'.pv.contacts.vals[k]!.v) ∧
+    (∀ k, k < m'.pv.pais.n → k < m'.pv.pais.vals.size → HxTrC b .moreValues m'.pv.pais.vals[k]!.v) := by
+  obtain ⟨b, hb, h⟩ := flo_schedule_init flags o m0 len kh kc hdrs cts l hg hfit hne ho hr
+  exact ⟨b, hb, hx_msg_trim_init b o m0 len kh kc hdrs cts flags (hfit b hb) (ho b hb) h⟩
+
+
+/-- test message: a Contact line with an empty parameter value before the comma -/
+def hxTrimMsg : Buf := "REGISTER sip:a@b SIP/2.0\r\nContact: <sip:a@b>;x= , <sip:c@d>\r\nCSeq: 1 REGISTER\r\n\r\n".toUTF8.data
+
+/-- test (message level): the Contact line `<sip:a@b>;x= , <sip:c@d>` is accepted; the first stored value is `[35, 48)`
+    and its last byte (offset 47) is the blank after `=` (offset 46), the comma stands at 48 — the exception shape; the
+    second value `[50, 59)` ends with `>` -/
+example :
+    (parseSIPMsg hxTrimMsg 0 (({} : PSIPMsg).init 0 ((some ()).map fun _ => Array.replicate 4 {})
+      ((some ()).map fun _ => Array.replicate 4 {})) 0).2.1 = .ok ∧
+    ((parseSIPMsg hxTrimMsg 0 (({} : PSIPMsg).init 0 ((some ()).map fun _ => Array.replicate 4 {})
+      ((some ()).map fun _ => Array.replicate 4 {})) 0).2.2.pv.contacts.vals.toList.map
+        (fun f => (f.v.offs, f.v.len))).take 2 = [(35, 13), (50, 9)] ∧
+    hxTrimMsg[46]? = some 61 ∧ hxTrimMsg[47]? = some 32 ∧ hxTrimMsg[48]? = some 44 ∧ hxTrimMsg[58]? = some 62 := by
   decide +kernel
 
 end Sipsp
